@@ -17,11 +17,14 @@
     binom <N> <n> <p>             N x cmb_random_binomial(n, p)
     loaded <N> <p0> ... <pm-1>    N x cmb_random_loaded_dice(m, p)
     alias <N> <p0> ... <pm-1>     cmb_random_alias_create(m, p), the table, then N x cmb_random_alias_sample
+    stdexp <N>                    N x cmb_random_std_exponential (F only; hand model Rng/Zig.lean over the regenerated tables)
+    geom <N> <p>                  N x cmb_random_geometric(p) (F only; regenerated logic on top of the ziggurat model, libm log)
     flip <N>                      N x cmb_random_flip
     unit <N>                      N x cmb_random(): the numerator x * 2^53
 -/
 import CimbaModel.Generated.RngDist
 import CimbaModel.Rng.Bridge
+import CimbaModel.Rng.Zig
 import Drivers.Common
 
 open CimbaModel.Generated CimbaModel.Rng Drivers
@@ -143,6 +146,21 @@ def stepLine (st : St) (ws : List String) : St × String :=
       let r := sampleMany n.toNat! 2 st.s (fun raw => DistF.cmb_random_alias_sample tF raw 0) (fun raw => DistQ.cmb_random_alias_sample tQ raw 0)
       ({ st with s := r.2.2 }, head ++ "F alias" ++ showList r.1 ++ "\nQ alias" ++ showList r.2.1 ++ "\n")
     | _, _ => (st, head)
+  | ["stdexp", n] =>
+    let T := Zig.expTab Float
+    let r := sampleMany n.toNat! 600 st.s
+      (fun raw => match Zig.stdExp T Float.exp 0.0 raw 200 0 with
+                  | some (x, k) => (hex16 x.toBits, k)
+                  | none => ("out-of-fuel", 1)) (fun _ => ((), 0))
+    ({ st with s := r.2.2 }, "F stdexp" ++ showList r.1 ++ "\n")
+  | ["geom", n, p] =>
+    let T := Zig.expTab Float
+    let pF := Float.ofBits (parseHex p)
+    let r := sampleMany n.toNat! 600 st.s
+      (fun raw => match Zig.stdExp T Float.exp 0.0 raw 200 0 with
+                  | some (x, k) => (toString (DistF.cmb_random_geometric pF Float.log x 0.0 0.0), k)
+                  | none => ("out-of-fuel", 1)) (fun _ => ((), 0))
+    ({ st with s := r.2.2 }, "F geom" ++ showList r.1 ++ "\n")
   | op :: _ => (st, s!"bad-op {op}\n")
   | [] => (st, "")
 
